@@ -6,6 +6,7 @@ export CARGO_NET_OFFLINE=true
 mkdir -p work .build
 [ -f harness/Cargo.lock ] || cp /repo/Cargo.lock harness/Cargo.lock
 gcc -shared -fPIC -O2 -o .build/clockshim.so shim/clockshim.c -ldl
+gcc -shared -fPIC -O2 -o .build/fsjournal.so shim/fsjournal.c -ldl -lpthread
 if [ -f translate/translate.py ]; then python3 translate/translate.py; fi
 (cd lean && lake build RNacos driver)
 (cd harness && cargo build --offline)
